@@ -64,6 +64,12 @@ def _rest(keys, already):
 CONV_V2 = [P_ + 'v2::convert::' + f for f in ('write::hot_cues', 'write::loops', 'write::beatgrid_markers', 'write::beatgrid', 'write::waveform', 'write::duration',
                                                 'read::hot_cues', 'read::loops', 'read::beatgrid_markers', 'read::waveform', 'read::duration')]
 
+# the schema-2.x single-field setters that are a read-modify-write of a performance-data blob (C04, second sentence): their C06
+# contracts (over the ghost column store) say which fields of the decoded blob change and that everything else, the trailing
+# extra_data included byte by byte, is written back as read
+BLOB_SETTERS_V2 = [P_ + 'v2::track_impl::' + f for f in ('set_key', 'set_average_loudness', 'set_sample_rate', 'set_sample_count', 'set_main_cue', 'set_hot_cues',
+                                                           'set_hot_cue_at@c06', 'set_loops', 'set_loop_at@c06', 'set_beatgrid')]
+
 def _c06_functions():
     import os, re
     f = os.path.join(os.path.dirname(os.path.dirname(os.path.abspath(__file__))), 'contracts', 'track_v2_c06.spec')
@@ -71,10 +77,16 @@ def _c06_functions():
            ['harness:' + l.strip()[9:-1] for l in open(f) if l.startswith('[harness ')]
 
 
+def _c06v1_functions():
+    import os
+    f = os.path.join(os.path.dirname(os.path.dirname(os.path.abspath(__file__))), 'contracts', 'track_v1_c06.spec')
+    return [l.strip()[4:-1] for l in open(f) if l.startswith('[fn djinterop::engine::v1::engine_track_impl::') and '_data@c06v1]' not in l]
+
+
 PROPS = {
     'C06': {
-        'tus': [E + 'v2/track_impl.cpp'],
-        'functions': _c06_functions() + CONV_V2,
+        'tus': [E + 'v2/track_impl.cpp', E + 'v1/engine_track_impl.cpp'],
+        'functions': _c06_functions() + CONV_V2 + _c06v1_functions(),
         'level': 'proof',
         'timeout': {'quick': 900, 'thorough': 3600},
         'assumptions': [
@@ -111,10 +123,10 @@ PROPS = {
     'C15': {
         'tus': [EDU] + V2 + V1 + [E + 'v2/track_impl.cpp', E + 'v1/engine_track_impl.cpp', E + 'engine.cpp'],
         'functions': SLOT_API + [P_ + 'v2::convert::write::waveform', P_ + 'v1::' + ANON + 'to_length_fields', P_ + 'v1::engine_track_impl::set_sample_count', P_ + 'v1::engine_track_impl::set_sample_rate',
-                      P_ + 'util::waveform_quantisation_number', P_ + 'util::calculate_high_resolution_waveform_extents', P_ + 'util::calculate_overview_waveform_extents'] + ENC_V1 + [k for k in ENC_V2 if '#loop' in k] + [P_ + 'v2::loops_blob::to_blob', P_ + 'v2::overview_waveform_data_blob::to_blob', P_ + 'v2::track_data_blob::to_blob'] + SEQ[:3],
+                      P_ + 'util::waveform_quantisation_number', P_ + 'util::calculate_high_resolution_waveform_extents', P_ + 'util::calculate_overview_waveform_extents'] + _rest(CONV_V2, [P_ + 'v2::convert::write::waveform']) + [P_ + 'v2::track_impl::' + f for f in ('set_hot_cues', 'set_loops', 'set_beatgrid', 'set_waveform')] + ENC_V1 + [k for k in ENC_V2 if '#loop' in k] + [P_ + 'v2::loops_blob::to_blob', P_ + 'v2::overview_waveform_data_blob::to_blob', P_ + 'v2::track_data_blob::to_blob'] + SEQ[:3],
         'level': 'proof',
         'assumptions': FORMAT_ASSUME[1:3] + [
-            'PARTIAL: only argument-value undefined behaviour in the non-SQL code is decided: (a) the per-slot cue/loop accessors of both schema generations for every int index over any stored slot vector, (b) convert::write::waveform for every combination of absent/present sample count and rate and every waveform length, (c) the buffer sizing of every blob encoder for any slot count and any label length (payload exactly filled, every write inside the allocation)',
+            'PARTIAL: only argument-value undefined behaviour in the non-SQL code is decided: (a) the per-slot cue/loop accessors of both schema generations for every int index over any stored slot vector, (b) convert::write::waveform for every combination of absent/present sample count and rate and every waveform length, (c) the buffer sizing of every blob encoder for any slot count and any label length (payload exactly filled, every write inside the allocation), (d) the schema-2.x list converters convert::read / convert::write (hot cues, loops, beat-grid markers, waveform, duration) and the list setters set_hot_cues / set_loops / set_beatgrid / set_waveform for lists of any length (every vector index and output iterator in range, over-long lists rejected with the stated exception)',
             'NOT covered: validity of handles to removed rows, anything whose safety depends on database state, termination/safety of the SQL layer, crate operations, string arguments reaching SQL',
             'the table / storage accessors (track_table::get_*/set_*, engine_track_impl::get_*_data/set_*_data, track_impl::id, sqlite_transaction) are EXTERNAL contract stubs: they return any well-formed blob (any slot count) or throw; the RAII transaction object is dropped by the translator; `this` of the SQL-backed classes is an opaque handle',
         ],
@@ -136,10 +148,10 @@ PROPS = {
         'explanation': 'Proved here: (1) every fixed-width decoder inverts its encoder and vice versa on the real bodies, bit-exactly for all 2^64 values (doubles by bit pattern); (2) the unencodable values are rejected: a cue/loop label over 255 bytes or (1.x) an empty label raises instead of being written, more than 8 hot cues are rejected in 1.x, a 1.x quick-cue blob is only produced for exactly 8 slots; (3) the reserved empty-slot encodings (offset -1) are the only values read back as absent.  One recorded finding (extra_data on track-data / overview blobs is written but cannot be read back) is exhibited and reported as KNOWN-FINDING.',
     },
     'C04': {
-        'tus': [EDU] + V2,
-        'functions': [P_ + 'encode_extra', P_ + 'decode_extra'] + [k for k in DEC_V2_LAYOUT] + [P_ + 'v2::beat_data_blob::from_blob', P_ + 'v2::' + ANON + 'decode_beatgrid#loop0', P_ + 'v2::' + ANON + 'decode_beatgrid', P_ + 'v2::quick_cues_blob::to_blob', P_ + 'v2::loops_blob::to_blob#loop1'] + _rest(ENC_V2 + SEQ, [P_ + 'v2::quick_cues_blob::to_blob', P_ + 'v2::loops_blob::to_blob#loop1']),
+        'tus': [EDU] + V2 + [E + 'v2/track_impl.cpp'],
+        'functions': BLOB_SETTERS_V2 + [P_ + 'encode_extra', P_ + 'decode_extra'] + [k for k in DEC_V2_LAYOUT] + [P_ + 'v2::beat_data_blob::from_blob', P_ + 'v2::' + ANON + 'decode_beatgrid#loop0', P_ + 'v2::' + ANON + 'decode_beatgrid', P_ + 'v2::quick_cues_blob::to_blob', P_ + 'v2::loops_blob::to_blob#loop1'] + _rest(ENC_V2 + SEQ, [P_ + 'v2::quick_cues_blob::to_blob', P_ + 'v2::loops_blob::to_blob#loop1']),
         'level': 'proof',
-        'assumptions': FORMAT_ASSUME + ['decided at the blob level only: that every schema-2.x setter is a read-modify-write of exactly one field of a decoded blob (track_impl.cpp, through the SQL-backed table layer) is not covered',
+        'assumptions': FORMAT_ASSUME + ['setter level (second sentence of the property): the ten blob-backed single-field setters of v2::track_impl are proved (their C06 contracts, re-checked by this command) to write back the decoded blob they fetched with only their own field(s) changed - every other field, every other cue / loop slot and every trailing extra_data byte (ghost index) as read. ASSUMED: the table accessors get_<blob> / set_<blob> return / store the decoded value of the column (ghost column store; SQL, C18) through from_blob / to_blob, whose byte preservation is the blob-level part of this check. set_waveform replaces the overview blob as a whole: an accepted overview payload has no trailing bytes (its decoder accepts only the exact length), so nothing can be dropped; track_impl::update (whole-snapshot write) rebuilds all blobs and is not a single-field change',
                         'the encoder side of the re-encoding argument (each field written back by the inverse codec at the same position, payload exactly filled) is the set of schema-2.x to_blob layout contracts (the same contracts as C02, re-checked by this command)'],
         'explanation': 'For every payload a schema-2.x decoder accepts: every field is kept verbatim in the decoded value (asserted field by field against the value the codec read at its position), unknown fields and flag bytes included, every trailing byte is captured as extra_data and written back verbatim, counts are taken from the payload, and the only normalisation is the boolean main-cue-adjusted byte (any non-zero reads as true, true is written as 1).',
     },
